@@ -5,7 +5,7 @@ From mathcomp Require Import all_ssreflect all_algebra.
 From PV Require Import Spec.LibSpecsMx Spec.Gaussian Gen.Kalman.
 Set Implicit Arguments.
 Unset Strict Implicit.
-Import GRing.Theory Num.Theory.
+Import Order.Theory GRing.Theory Num.Theory.
 Local Open Scope ring_scope.
 
 (* ------------------------------------------------------------------ *)
@@ -601,3 +601,253 @@ Qed.
 End Order21.
 
 End SequentialGen.
+
+(* ------------------------------------------------------------------ *)
+(** * Positive definiteness: S = H P H^T + R is invertible for PSD P and
+      positive definite R, so the Cholesky oracle only has to factorise *)
+Section Pd.
+Variable F : realFieldType.
+
+Lemma pd_psd (n : nat) (A : 'M[F]_n) : pd A -> psd A.
+Proof.
+move=> pA x; have [->|nz] := eqVneq x 0; last exact/ltW/pA.
+by rewrite mulmx0 mxE.
+Qed.
+
+Lemma pd_add_psd (n : nat) (A B : 'M[F]_n) : psd A -> pd B -> pd (A + B).
+Proof.
+move=> pA pB x nz; rewrite mulmxDr mulmxDl mxE.
+by rewrite ltr_paddl ?pA ?pB.
+Qed.
+
+Lemma pd_unitmx (n : nat) (A : 'M[F]_n) : pd A -> A \in unitmx.
+Proof.
+move=> pA; rewrite -row_free_unit -kermx_eq0; apply/rowV0P => v /sub_kermxP vA.
+apply/eqP; apply: contraT => nz.
+have nzT : v^T != 0 by rewrite -trmx0 (inj_eq trmx_inj).
+by have := pA _ nzT; rewrite trmxK vA mul0mx mxE ltxx.
+Qed.
+
+Lemma pd_block_diag (m1 m2 : nat) (R1 : 'M[F]_m1) (R2 : 'M[F]_m2) :
+  pd R1 -> pd R2 -> pd (block_mx R1 0 0 R2).
+Proof.
+move=> p1 p2 x; rewrite -[x]vsubmxK; set x1 := usubmx x; set x2 := dsubmx x => nz.
+rewrite tr_col_mx mul_row_block !mulmx0 addr0 add0r mul_row_col mxE.
+have /orP[h|h] : (x1 != 0) || (x2 != 0).
+- by rewrite -negb_and; apply: contra nz => /andP[/eqP-> /eqP->]; rewrite col_mx0.
+- by rewrite ltr_paddr ?p1 //; apply: pd_psd.
+- by rewrite ltr_paddl ?p2 //; apply: pd_psd.
+Qed.
+
+Lemma cholesky_spec_pd (m : nat) (chol : 'M[F]_m -> 'M[F]_m) (S : 'M[F]_m) :
+  pd S -> cholesky_factor chol S -> cholesky_spec chol S.
+Proof.
+move=> /pd_unitmx uS [lo LLt]; split=> //; split=> //.
+by move: uS; rewrite -{1}LLt unitmx_mul => /andP[].
+Qed.
+
+End Pd.
+
+(* ------------------------------------------------------------------ *)
+(** * The property as stated: P symmetric PSD, R symmetric positive definite,
+      the Cholesky oracle returns a lower factor of S.  Invertibility of S and
+      of the factor follow. *)
+Section CorrectPD.
+Variable F : realFieldType.
+Variables n m : nat.
+Variable cholesky : 'M[F]_m -> 'M[F]_m.
+Variables (x : 'cV[F]_n) (P : 'M[F]_n) (z : 'cV[F]_m) (H : 'M[F]_(m, n)) (R : 'M[F]_m).
+
+Hypothesis sP : P^T = P.
+Hypothesis pP : psd P.
+Hypothesis sR : R^T = R.
+Hypothesis pR : pd R.
+Hypothesis cF : cholesky_factor cholesky (correct_S P H R).
+
+Lemma correct_S_pd : pd (correct_S P H R).
+Proof. by rewrite correct_S_eq; apply: pd_add_psd => //; apply: psd_conj. Qed.
+
+Lemma correct_chol_spec : cholesky_spec cholesky (correct_S P H R).
+Proof. exact: cholesky_spec_pd correct_S_pd cF. Qed.
+
+Let cS := correct_chol_spec.
+
+(** (1) conditional mean and covariance of the linear-Gaussian model *)
+Theorem correct_is_conditional :
+  [/\ correct_ret0 cholesky x P z H R = cond_mean x P z H R,
+      correct_ret1 cholesky P H R = cond_cov P H R,
+      cond_cov P H R = schur_compl P (P *m H^T) (H *m P) (innov_cov P H R)
+    & innov_cov P H R \in unitmx].
+Proof.
+split; [exact: correct_mean | exact: correct_cov | exact: cond_cov_schur | exact: innov_unit cS].
+Qed.
+
+(** (2) symmetric, PSD, not larger than the prior *)
+Theorem correct_cov_properties :
+  [/\ (correct_ret1 cholesky P H R)^T = correct_ret1 cholesky P H R,
+      psd (correct_ret1 cholesky P H R)
+    & loewner_le (correct_ret1 cholesky P H R) P].
+Proof.
+split; first exact: post_symmetric.
+- exact/post_psd/pd_psd.
+- by have [] := post_le_prior sP sR cS pP (pd_psd pR).
+Qed.
+
+(** (3) information form *)
+Theorem correct_information : P \in unitmx ->
+  [/\ info_mx P H R \in unitmx,
+      correct_ret1 cholesky P H R = info_cov P H R
+    & info_mx P H R *m correct_ret0 cholesky x P z H R = info_vec x P z H R].
+Proof.
+move=> uP; have uR := pd_unitmx pR.
+have [eqI uI] := information_form_inv sP sR cS uP uR; split=> //.
+exact: information_mean.
+Qed.
+
+(** (4) whitened innovation *)
+Theorem correct_innovation :
+  let L := correct_L cholesky P H R in
+  let S := correct_S P H R in
+  let e := z - H *m x in
+  let nu := correct_ret2 cholesky x P z H R in
+  [/\ is_lower L /\ L *m L^T = S,
+      L \in unitmx /\ nu = invmx L *m e,
+      nu^T *m nu = e^T *m invmx S *m e
+    & invmx L *m S *m (invmx L)^T = 1%:M].
+Proof.
+have [e1 e2 e3 e4] := innovation_whitened x z cS.
+split=> //; split=> //; exact: chol_unitL cS.
+Qed.
+
+End CorrectPD.
+
+(** (5) two measurement blocks, in either order, against the joint update;
+    P may be singular *)
+Section SequentialPD.
+Variable F : realFieldType.
+Variables n m1 m2 : nat.
+Variable chol1 : 'M[F]_m1 -> 'M[F]_m1.
+Variable chol2 : 'M[F]_m2 -> 'M[F]_m2.
+Variable chol12 : 'M[F]_(m1 + m2) -> 'M[F]_(m1 + m2).
+Variables (x : 'cV[F]_n) (P : 'M[F]_n).
+Variables (z1 : 'cV[F]_m1) (H1 : 'M[F]_(m1, n)) (R1 : 'M[F]_m1).
+Variables (z2 : 'cV[F]_m2) (H2 : 'M[F]_(m2, n)) (R2 : 'M[F]_m2).
+
+Hypothesis sP : P^T = P.
+Hypothesis pP : psd P.
+Hypothesis sR1 : R1^T = R1.
+Hypothesis pR1 : pd R1.
+Hypothesis sR2 : R2^T = R2.
+Hypothesis pR2 : pd R2.
+
+Local Notation z := (col_mx z1 z2).
+Local Notation H := (col_mx H1 H2).
+Local Notation R := (block_mx R1 0 0 R2).
+
+Hypothesis c12 : cholesky_factor chol12 (correct_S P H R).
+
+Theorem sequential_eq_joint :
+  (let x1 := correct_ret0 chol1 x P z1 H1 R1 in
+   let P1 := correct_ret1 chol1 P H1 R1 in
+   cholesky_factor chol1 (correct_S P H1 R1) ->
+   cholesky_factor chol2 (correct_S P1 H2 R2) ->
+   correct_ret0 chol2 x1 P1 z2 H2 R2 = correct_ret0 chol12 x P z H R /\
+   correct_ret1 chol2 P1 H2 R2 = correct_ret1 chol12 P H R)
+  /\
+  (let x1 := correct_ret0 chol2 x P z2 H2 R2 in
+   let P1 := correct_ret1 chol2 P H2 R2 in
+   cholesky_factor chol2 (correct_S P H2 R2) ->
+   cholesky_factor chol1 (correct_S P1 H1 R1) ->
+   correct_ret0 chol1 x1 P1 z1 H1 R1 = correct_ret0 chol12 x P z H R /\
+   correct_ret1 chol1 P1 H1 R1 = correct_ret1 chol12 P H R).
+Proof.
+have s12 : cholesky_spec chol12 (correct_S P H R).
+  by apply: correct_chol_spec => //; apply: pd_block_diag.
+split=> /= cA cB.
+- have sA := correct_chol_spec pP pR1 cA.
+  apply: sequential12 => //.
+  apply: correct_chol_spec => //; exact/post_psd/pd_psd.
+- have sA := correct_chol_spec pP pR2 cA.
+  apply: sequential21 => //.
+  apply: correct_chol_spec => //; exact/post_psd/pd_psd.
+Qed.
+
+End SequentialPD.
+
+(* ------------------------------------------------------------------ *)
+(** * Non-vacuity: the hypotheses of the theorems above are satisfiable *)
+Section Examples.
+Variable F : realFieldType.
+
+Lemma quad_scalar (n : nat) (a : F) (x : 'cV[F]_n) :
+  (x^T *m a%:M *m x) 0 0 = a * \sum_k x k 0 ^+ 2.
+Proof.
+rewrite mul_mx_scalar -scalemxAl mxE mxE; congr (_ * _).
+by apply: eq_bigr => k _; rewrite mxE expr2.
+Qed.
+
+Lemma psd_scalar (n : nat) (a : F) : 0 <= a -> psd (a%:M : 'M[F]_n).
+Proof.
+move=> a0 x; rewrite quad_scalar mulr_ge0 // sumr_ge0 // => k _.
+exact: sqr_ge0.
+Qed.
+
+Lemma pd_scalar (n : nat) (a : F) : 0 < a -> pd (a%:M : 'M[F]_n).
+Proof.
+move=> a0 x nz; rewrite quad_scalar mulr_gt0 // lt_def sumr_ge0 ?andbT; last first.
+  by move=> k _; exact: sqr_ge0.
+apply: contra nz => /eqP/psumr_eq0P s0; apply/eqP/matrixP => i j.
+have /eqP := s0 (fun k _ => sqr_ge0 (x k 0)) i isT.
+by rewrite sqrf_eq0 ord1 mxE => /eqP.
+Qed.
+
+Lemma is_lower_scalar (n : nat) (a : F) : is_lower (a%:M : 'M[F]_n).
+Proof. by move=> i j ltij; rewrite mxE -val_eqE (ltn_eqF ltij) mulr0n. Qed.
+
+(** one update, 1 x 1:  P = 3, H = 1, R = 1, S = 4, L = 2 *)
+Lemma example_correct :
+  let P : 'M[F]_1 := 3%:R%:M in let H : 'M[F]_1 := 1%:M in let R : 'M[F]_1 := 1%:M in
+  let chol : 'M[F]_1 -> 'M[F]_1 := fun=> 2%:R%:M in
+  [/\ P^T = P /\ psd P, R^T = R /\ pd R, cholesky_factor chol (correct_S P H R)
+    & P \in unitmx].
+Proof.
+split; rewrite ?tr_scalar_mx //.
+- by split=> //; apply: psd_scalar; rewrite ler0n.
+- by split=> //; apply: pd_scalar; rewrite ltr01.
+- split; first exact: is_lower_scalar.
+  rewrite /correct_S /correct_HP tr_scalar_mx !mul1mx trmx1 mulmx1.
+  by rewrite -scalar_mxM -raddfD /= -natrM -(natrD _ 3 1).
+- by rewrite unitmxE det_scalar1 unitfE pnatr_eq0.
+Qed.
+
+(** two blocks with a SINGULAR prior covariance: P = 0, R1 = R2 = 1, any H1 H2 *)
+Lemma correct_ret1_P0 (n m : nat) (chol : 'M[F]_m -> 'M[F]_m) (H : 'M[F]_(m, n)) (R : 'M[F]_m) :
+  correct_ret1 chol 0 H R = 0.
+Proof.
+rewrite /correct_ret1 /correct_K /correct_HP /cho_solve !mulmx0 trmx0 !mul0mx.
+by rewrite addr0.
+Qed.
+
+Lemma correct_S_P0 (n m : nat) (H : 'M[F]_(m, n)) (R : 'M[F]_m) : correct_S 0 H R = R.
+Proof. by rewrite /correct_S /correct_HP mulmx0 mul0mx add0r. Qed.
+
+Lemma example_sequential (n m1 m2 : nat) (H1 : 'M[F]_(m1, n)) (H2 : 'M[F]_(m2, n)) :
+  let P : 'M[F]_n := 0 in
+  let R1 : 'M[F]_m1 := 1%:M in let R2 : 'M[F]_m2 := 1%:M in
+  let chol1 : 'M[F]_m1 -> 'M[F]_m1 := fun=> 1%:M in
+  let chol2 : 'M[F]_m2 -> 'M[F]_m2 := fun=> 1%:M in
+  let chol12 : 'M[F]_(m1 + m2) -> 'M[F]_(m1 + m2) := fun=> 1%:M in
+  [/\ (P^T = P /\ psd P) /\ (R1^T = R1 /\ pd R1) /\ (R2^T = R2 /\ pd R2),
+      cholesky_factor chol12 (correct_S P (col_mx H1 H2) (block_mx R1 0 0 R2)),
+      cholesky_factor chol1 (correct_S P H1 R1) /\
+      cholesky_factor chol2 (correct_S (correct_ret1 chol1 P H1 R1) H2 R2)
+    & cholesky_factor chol2 (correct_S P H2 R2) /\
+      cholesky_factor chol1 (correct_S (correct_ret1 chol2 P H2 R2) H1 R1)].
+Proof.
+have fac k : cholesky_factor (fun=> 1%:M) (1%:M : 'M[F]_k).
+  by split; [exact: is_lower_scalar | rewrite trmx1 mulmx1].
+split; rewrite /= ?correct_ret1_P0 ?correct_S_P0 -?scalar_mx_block //.
+by rewrite trmx0 !trmx1; do !split=> //; by [exact: psd0 | apply: pd_scalar; rewrite ltr01].
+Qed.
+
+End Examples.
